@@ -22,22 +22,60 @@ from .c10 import run_sticky
 def run_r5(chk: Check, prog: Program) -> None:
     chk.rule("C12.R5", "tokenizer keeps no state between calls; tokens are immutable after construction", minimum=5)
     tk = prog.cls("Tokenizer")
-    for name, m in tk.methods.items():
-        stores = []
-        for n in ast.walk(m.node):
+    MUTATORS = {"append", "pop", "clear", "update", "insert", "extend", "remove", "setdefault", "sort", "reverse", "add"}
+
+    def rooted_at_self(e: ast.expr) -> bool:
+        while isinstance(e, (ast.Attribute, ast.Subscript)):
+            e = e.value
+        return isinstance(e, ast.Name) and e.id == "self"
+
+    def stores_to_self(fn: ast.FunctionDef) -> List[str]:
+        out = []
+        for n in ast.walk(fn):
             tg = n.targets if isinstance(n, ast.Assign) else ([n.target] if isinstance(n, (ast.AugAssign, ast.AnnAssign)) else [])
             for t in tg:
-                if isinstance(t, ast.Attribute) and isinstance(t.value, ast.Name) and t.value.id == "self":
-                    stores.append(unparse(t))
-                if isinstance(t, ast.Subscript) and unparse(t.value).startswith("self."):
-                    stores.append(unparse(t))
+                for tt in (t.elts if isinstance(t, (ast.Tuple, ast.List)) else [t]):
+                    if isinstance(tt, (ast.Attribute, ast.Subscript)) and rooted_at_self(tt):
+                        out.append(unparse(tt))
+            if isinstance(n, ast.Delete):
+                for t in n.targets:
+                    if isinstance(t, (ast.Attribute, ast.Subscript)) and rooted_at_self(t):
+                        out.append("del " + unparse(t))
+        return out
+
+    for name, m in tk.methods.items():
+        stores = stores_to_self(m.node)
+        undecided = []
+        env = None
+        # calls on objects kept on the tokenizer: self.<attr>.<method>(...)
+        for n in ast.walk(m.node):
+            if isinstance(n, ast.Call) and isinstance(n.func, ast.Attribute) and isinstance(n.func.value, (ast.Attribute, ast.Subscript)) \
+                    and rooted_at_self(n.func.value):
+                meth = n.func.attr
+                if meth in MUTATORS:
+                    stores.append(unparse(n.func) + "()")
+                    continue
+                if env is None:
+                    env = local_types(prog, m)
+                rc = expr_class(prog, m, n.func.value, env)
+                target = prog.find_method(rc, meth) if rc else None
+                if target is not None:
+                    inner = stores_to_self(target.node)
+                    if inner:
+                        stores.append(f"{unparse(n.func)}() -> {target.qualname} stores {inner[:3]}")
+                elif meth not in ("get", "keys", "values", "items", "copy", "index", "count", "startswith", "endswith", "lower"):
+                    undecided.append(unparse(n.func))
         key = f"C12.R5:Tokenizer.{name}"
-        if name == "__init__" or not stores:
-            chk.ok("C12.R5", key, f"Tokenizer.{name} stores {stores or 'nothing'} on self", where=m.where)
-        else:
-            chk.fail("C12.R5", key + ":" + stores[0], f"Tokenizer.{name} stores {stores}",
-                     "the tokenizer writes its own state during a call: later calls can depend on earlier ones",
+        if name == "__init__" or (not stores and not undecided):
+            chk.ok("C12.R5", key, f"Tokenizer.{name} stores {stores or 'nothing'} on itself", where=m.where)
+        elif stores:
+            chk.fail("C12.R5", key + ":" + stores[0].split("(")[0], f"Tokenizer.{name} modifies state kept on the tokenizer: {stores}",
+                     "the tokenizer writes state that outlives the call (on itself or on an object it keeps): what a later "
+                     "tokenize() returns can depend on earlier calls, e.g. on a call that raised half-way",
                      witness={"stores": stores}, where=m.where)
+        else:
+            chk.undecided("C12.R5", key, f"Tokenizer.{name} calls {undecided} on an object kept on the tokenizer",
+                          "callee not resolved", m.where)
     for f in prog.all_functions():
         env = None
         for n in ast.walk(f.node):
@@ -75,5 +113,63 @@ def run(chk: Check) -> None:
     chk.analysed["scenario_paths"] = len(scen)
     run_sticky(chk, scen, pid="C12", rid="R1", names=tuple(SCENARIOS))
     run_r5(chk, prog)
+    run_tokenizer_history(chk, prog)
     chk.exhaustive = True
     chk.max_undecided = 0
+
+
+def run_tokenizer_history(chk: Check, prog: Program) -> None:
+    """One Tokenizer object, two calls (the first may raise half-way): the second answer must equal a fresh tokenizer's."""
+    from sa.absint import AbsRaise, Interp, Lst, Rec, SymChar, SymStr, explore
+    chk.rule("C12.R6", "a tokenizer that served an earlier call (also one that raised) tokenizes like a fresh one", minimum=50)
+    tok_cls = prog.cls("Tokenizer")
+    m = prog.func("tokenizer", "Tokenizer.tokenize")
+    alphabet = frozenset("4x+ $")
+
+    def describe(it, v):
+        if not isinstance(v, Lst):
+            return repr(v)
+        out = []
+        for t in v.items:
+            if isinstance(t, Rec):
+                val = t.fields.get("value")
+                if isinstance(val, SymChar):
+                    val = f"<ch{val.cid}>"
+                elif isinstance(val, SymStr):
+                    val = "".join(x if isinstance(x, str) else f"<ch{x.cid}>" for x in val.items)
+                out.append((val, t.fields.get("type")))
+            else:
+                out.append(repr(t))
+        return out
+
+    for n1 in (1, 2):
+        def body(it: Interp, n1=n1):
+            used = it.instantiate(tok_cls, [], {})
+            first = [it.new_char(alphabet) for _ in range(n1)]
+            second = [it.new_char(alphabet) for _ in range(2)]
+            try:
+                it.call_function(m, [used, SymStr(first)], {})
+                it.first = "returned"
+            except AbsRaise as e:
+                it.first = f"raised {e.exc}"
+            try:
+                a = ("ok", describe(it, it.call_function(m, [used, SymStr(second)], {})))
+            except AbsRaise as e:
+                a = ("raise", e.exc)
+            fresh = it.instantiate(tok_cls, [], {})
+            try:
+                b = ("ok", describe(it, it.call_function(m, [fresh, SymStr(second)], {})))
+            except AbsRaise as e:
+                b = ("raise", e.exc)
+            return a, b
+        for p in explore(prog, body, {"max_updepth": 0, "time_budget": 120}, max_paths=20000):
+            it = p.interp
+            label = f"tokenize(len {n1}) [{getattr(it, 'first', '?')}] then tokenize(len 2): {p.cond[-160:]}"
+            if p.outcome != "return":
+                chk.undecided("C12.R6", "C12.R6:bound", label, f"{p.outcome} {p.exc or p.note}", m.where)
+                continue
+            a, b = p.value
+            chk.verdict(a == b, "C12.R6", "C12.R6:Tokenizer.tokenize:history", label,
+                        "" if a == b else f"used tokenizer gives {a}, a fresh tokenizer gives {b}",
+                        witness={"first_call": getattr(it, "first", "?"), "used": repr(a)[:300], "fresh": repr(b)[:300],
+                                 "path": p.cond[-300:]}, where=m.where)
